@@ -62,6 +62,16 @@ claim('C08', 'DESIGN.md 4/C08',
       'the convergence clause is validated numerically on the analytic families for the specified formula and the code.',
       'Convergence is real analysis: validated on Gaussian/Yukawa/exponential/sphere families, n = 128..2048 at r_max = 25.6, not proved.')
 
+claim('C13', 'DESIGN.md 4/C13',
+      'TLA+ spec MatrixArray.tla (objects = buffer reference + space flag, exact rational data) model-checked with TLC; every exported '
+      'transition replayed on real MatrixArray/IdentityMatrixArray objects (data vs TLC rationals, np.shares_memory vs buffer relation, '
+      'exception class vs SpaceRule); skeleton paths re-run with random data of rank 1-5 / length 1-64 against a TLC-validated '
+      'per-matrix reference interpreter',
+      'TLC checks NoAliasOutOfPlace, InPlaceTouchesOnlyLhs, RefusedLeavesEverything, SpaceRule, InvertIsInverse over all operator x '
+      'operand-kind x object (incl. self-aliased) combinations to depth 2 (deeper by simulation in the thorough tier) and all 3x3 '
+      'space-flag pairs; conformance by replay of every edge.',
+      'Bounded depth; exact instances rank 2, length 1-2; other shapes through the reference interpreter; result space flag not judged.')
+
 ALL = ['C%02d' % i for i in range(1, 19)]
 
 
